@@ -444,10 +444,35 @@ FLOORS['quick']['counters'].update(_Q4)
 FLOORS['thorough']['counters'].update(_T4)
 FLOORS['quick']['monitors'].update({'M.bl': 4600, 'M.tb': 5100})
 FLOORS['thorough']['monitors'].update({'M.bl': 144000, 'M.tb': 144000})
-_Q5 = {}
-_T5 = {}
+# near-twin headings class: ~50% of the minimum over quick seeds 0-3 on the unchanged tree; thorough = 25 x the quick floor
+# (the thorough tier draws 16000 / 520 = 30.8 times as many twin cases from the same generator)
+_Q5 = {'twin:blank-run-inside-heading-text': 51,
+ 'twin:case': 260,
+ 'twin:dim:case-comment': 16,
+ 'twin:dim:case-key': 13,
+ 'twin:dim:case-urgency': 16,
+ 'twin:dim:case-value': 13,
+ 'twin:dim:case:blocks': 30,
+ 'twin:dim:case:parses': 32,
+ 'twin:dim:char-comment': 12,
+ 'twin:dim:char-value': 11,
+ 'twin:dim:char:blocks': 14,
+ 'twin:dim:char:parses': 13,
+ 'twin:dim:ws-comment': 52,
+ 'twin:dim:ws-kind-comment': 29,
+ 'twin:dim:ws-kind-value': 14,
+ 'twin:dim:ws-value': 30,
+ 'twin:dim:ws:blocks': 67,
+ 'twin:dim:ws:parses': 72,
+ 'twin:headings': 799,
+ 'twin:how:blocks': 125,
+ 'twin:how:parses': 124,
+ 'twin:tab-inside-heading-text': 116}
+_T5 = {k: v * 25 for k, v in _Q5.items()}
 FLOORS['quick']['counters'].update(_Q5)
 FLOORS['thorough']['counters'].update(_T5)
+FLOORS['quick']['monitors']['M.twin'] = 4600
+FLOORS['thorough']['monitors']['M.twin'] = 115000
 
 # ---------------------------------------------------------------------------
 # grammar (render + independent validity check of a model)
